@@ -14,5 +14,5 @@ THEOREMS = [P + n for n in (
     "mirror_tuple_join", "mirror_array_concat", "mirror_buffer_push", "mirror_buffer_push_at", "boot_more", "mirror_replace", "boot_partition_distinct", "mirror_map3_fill_frombytes",
     # session 4
     "boot_map_template", "boot_interleave", "boot_interpose", "boot_frequencies_group_by", "boot_sort_wrappers",
-    "mirror_push_word", "mirror_push_uint", "mirror_new_filled_push_pop", "boot_flatten_reverse_merge", "boot_map_any_arity", "mirror_scanformat",
+    "mirror_push_word", "mirror_push_uint", "mirror_new_filled_push_pop", "boot_flatten_reverse_merge", "boot_map_any_arity", "mirror_scanformat", "format_error_where_scan_raises",
 )]
